@@ -16,6 +16,11 @@ import (
 
 type flagVal string
 
+type mutFlag struct{ s string }
+
+func (f *mutFlag) String() string   { return f.s }
+func (f *mutFlag) Set(string) error { return nil }
+
 func (f flagVal) String() string   { return string(f) }
 func (f flagVal) Set(string) error { return nil }
 
@@ -391,6 +396,33 @@ func checkC13(r *core.Run) {
 				r.Witness("constant-vs-flag", "", cs.format+"\x00"+a, fmt.Sprintf("FormatFromConstant(%q,x=%q)=%q,%v but FormatFromFlag gives %q,%v", cs.format, a, t1, e1, t2, e2), nil)
 			}
 		}
+	}
+	// hidden state: the same flag.Value object reused with a changed format must behave like a fresh one
+	{
+		fmts := []string{"https://x.com/a/%{x}", "//x.com/%{x}", "/p/%{x}", "about:blank#%{x}", "//%{x}/a.js", "javascript:%{x}", "http://x.com/%{x}", "%{x}", "https://x.com/%{x}%{y}"}
+		args := map[string]string{"x": "evil.example", "y": "."}
+		for _, f1 := range fmts {
+			for _, f2 := range fmts {
+				fl := &mutFlag{f1}
+				safehtml.TrustedResourceURLFormatFromFlag(fl, args)
+				fl.s = f2
+				got, gerr := safehtml.TrustedResourceURLFormatFromFlag(fl, args)
+				want, werr := safehtml.TrustedResourceURLFormatFromFlag(flagVal(f2), args)
+				atomic.AddInt64(&evals, 1)
+				if got.String() != want.String() || (gerr == nil) != (werr == nil) {
+					r.Witness("flag-reuse", "", f1+"\x00"+f2, fmt.Sprintf("FormatFromFlag on a flag that first held %q and now holds %q gives (%q, %v); a fresh flag holding %q gives (%q, %v)", f1, f2, got, gerr, f2, want, werr), nil)
+				}
+				if gerr == nil {
+					if cl, _, what := c13Judge(c13Case{Op: "format", Format: f2, Args: args}); cl == "" && !c13SafePrefix(f2) {
+						_ = what
+					}
+					if !c13SafePrefix(f2) {
+						r.Witness("unsafe-prefix", "flag-reuse", f1+"\x00"+f2, fmt.Sprintf("FormatFromFlag succeeded (%q) for the unsafe format %q held by a reused flag", got, f2), nil)
+					}
+				}
+			}
+		}
+		r.Set("layer_flag_reuse", fmt.Sprintf("%d x %d ordered pairs of formats through one mutable flag.Value", len(fmts), len(fmts)))
 	}
 	// Append
 	bases := []string{"https://x.com/a/b/", "https://x.com/a/b", "https://x.com/a/b/.", "https://x.com/a/%2e", "//x.com/", "/a/", "/a", "about:blank#", "https://x.com/a?q=", "https://x.com/a#f",
